@@ -295,6 +295,28 @@ def run (ctx):
       ps_ = q.paths_under(repo, f.module, g, q.Env({}, [], hookF), n, [L.head, L.after, g.exit], f.cls, limit=100, track_start=True)
       if ps_ and not any(p_[-1] is L.head for p_, e_ in ps_): brk = [n]
     ctx.ob('R-EFFECT', f, "`%s`: a handler that closed the connection stops the loop" % n.text(50), bool(brk), "leaves the loop when the handler returns False" if brk else "result of the error handler is ignored", (f.module, n.ast), 'D3')
+    # ... and the dual: a handler that answered with an error and returns nothing ("carry on") must not stop the loop - with None for
+    # its result some path from the call comes round to the loop head (the messages behind the bad one are still owed)
+    def hookN (call, env=None): return (True, None) if call_name(call) == '_error_handler' else (False, None)
+    psn_ = q.paths_under(repo, f.module, g, q.Env({}, [], hookN), n, [L.head, L.after, g.exit], f.cls, limit=100, track_start=True)
+    if psn_ and len(psn_) < 100:
+      fs_ = q.fact_strs(g, n)
+      closes_ = any(call_name(c_) == 'close' for c_ in q.node_calls(n))
+      carry = any(p_[-1] is L.head for p_, e_ in psn_)
+      # (the bad-version path closes the connection inside the handler and always reports False - that is checked with the handler)
+      eh_ = f.cls.find_method('_error_handler') if f.cls is not None else None
+      always_false = False
+      if eh_ is not None:
+        c0_ = [c_ for c_ in q.node_calls(n) if call_name(c_) == '_error_handler']
+        if c0_ and c0_[0].args:
+          try:
+            summ_ = framing.return_summary(repo, eh_, q.Env({eh_.params[1]: repo.try_const(f.module, c0_[0].args[0], f.cls)}))
+            always_false = set(summ_) == {'False'}
+          except Exception: always_false = False
+      if not always_false:
+        ctx.ob('R-EFFECT', f, "`%s`: a handler that asks to carry on (returns nothing) does not stop the loop" % n.text(50), carry, "reaches the loop head with the handler's result None" if carry else
+               "with the error handler returning None (it has sent its error reply and wants processing to go on) no path from `%s` returns to the loop head: the loop is left with the offending message still at the head of the buffer - "
+               "it is answered again on every arrival and nothing behind it is ever delivered" % n.text(40), (f.module, n.ast), 'D3')
   eh = ofc.find_method('_error_handler')
   if eh is not None:
     ctx.analysed(eh); g2 = q.cfg_of(eh)
